@@ -102,11 +102,22 @@ def make_fault(cls, text):
         return StrictBackendError({"why": text})
     if cls == "TwoArg":
         return TwoArgBackendError(7, text)
+    if cls in PROTOCOL_FAULTS:
+        return PROTOCOL_FAULTS[cls](text)
     raise ValueError(cls)
 
 
-# the constructors of the last four cannot be called with one message: TypeError, AttributeError, ValueError, TypeError
-FAULT_CLASSES = ["Exception", "KeyError", "OSError", "UnicodeEncodeError", "Custom", "Response", "Strict", "TwoArg"]
+# exception classes that iteration / generator / interpreter protocols treat specially (a bare `next(it)` on an exhausted
+# iterator in backend code, `await anext(..)`, a generator closed under the handler, `sys.exit()` / Ctrl-C semantics).
+# The first two are ordinary `Exception`s; the last three are BaseExceptions that are no Exception.
+PROTOCOL_FAULTS = {"StopIteration": StopIteration, "StopAsyncIteration": StopAsyncIteration, "GeneratorExit": GeneratorExit,
+                   "SystemExit": SystemExit, "KeyboardInterrupt": KeyboardInterrupt}
+
+# the constructors of Response / Strict / TwoArg cannot be called with one message: AttributeError, ValueError, TypeError
+FAULT_CLASSES = ["Exception", "KeyError", "OSError", "UnicodeEncodeError", "Custom", "Response", "Strict", "TwoArg",
+                 "StopIteration", "StopAsyncIteration"]
+# ... and the ones `except Exception` does not catch (only used by streams that ask for them: `RunStream.base_faults`)
+BASE_FAULT_CLASSES = ["GeneratorExit", "SystemExit", "KeyboardInterrupt"]
 
 
 def canon_for_model(e):
@@ -141,6 +152,7 @@ class RecEM(AsyncEventManager):
             e = R.canon_event(event)
             # what the writer will actually receive: the event's own time (ms) and thread_id, un-canonicalised (C05.sched)
             ctx.fire_raw.append([e["t"], e.get("tid")])
+            ctx.fire_names.append(event.__class__.get_name())
             e["t"] = 0
             th = ctx.namer("other")
             if "tid" in e:
@@ -208,6 +220,92 @@ class RecBackend(ReportingBackend, ReportingSessionBuilderMixin):
         return RecSession(self._ctx)
 
 
+class SubsetSession(ReportingSession):
+    """a reporting session whose `on_<event>` handlers are set PER INSTANCE (as a backend session does when it enables its
+    handlers according to its configuration): ONE class for every instance of every run of the process, different subsets
+    of the event names per instance.  `got` = [event index, event name] of every call, in call order (handler thread)"""
+
+    def __init__(self, names):
+        self.names, self.got = list(names), []
+        for n in names:
+            setattr(self, "on_" + n, self._handle)
+
+    def _handle(self, event):
+        self.got.append([getattr(event, "_lccverif_k", None), event.__class__.get_name()])
+
+
+class SubsetBackend(ReportingBackend, ReportingSessionBuilderMixin):
+    def __init__(self, names):
+        self.session = SubsetSession(names)
+
+    def get_name(self):
+        return "lccverif-subset"
+
+    def create_reporting_session(self, report_dir, report, parallel, report_saving_strategy):
+        return self.session
+
+
+def event_names():
+    """names of the event classes of the tree under test, in the order `add_listener` walks them"""
+    return [ec.get_name() for ec in EventManager._get_event_classes()]
+
+
+# per-instance handler sets by name: "starts" < "starts+ends" < "all"; the steps and records only; the results only
+def listener_events(shape):
+    names = event_names()
+    if shape == "all":
+        return names
+    if shape == "starts":
+        return [n for n in names if n.endswith("_start")]
+    if shape == "starts+ends":
+        return [n for n in names if n.endswith("_start") or n.endswith("_end")]
+    if shape == "records":
+        return [n for n in names if n.startswith("log") or n.startswith("check") or n.startswith("step")]
+    if shape == "tests":
+        return [n for n in names if n.startswith("test_") and "session" not in n]
+    raise ValueError(shape)
+
+
+LISTENER_SHAPES = ["all", "starts", "starts+ends", "records", "tests"]
+
+
+def _file_backend(name):
+    if name == "json":
+        from lemoncheesecake.reporting.backends.json_ import JsonBackend
+        return JsonBackend()
+    if name == "xml":
+        from lemoncheesecake.reporting.backends.xml import XmlBackend
+        return XmlBackend()
+    if name == "junit":
+        from lemoncheesecake.reporting.backends.junit import JunitBackend
+        return JunitBackend()
+    raise ValueError(name)
+
+
+_SAVED_FILES = {"json": "report.js", "xml": "report.xml", "junit": "report-junit.xml"}
+
+
+def _read_saved(name, report_dir):
+    """the saved file as its readers see it: json / xml through the REAL `load_report` (then the rank-sorted accessors);
+    junit: the (name, failures / errors / skipped) of every <testcase>, in file order"""
+    path = os.path.join(report_dir, _SAVED_FILES[name])
+    out = {"exists": os.path.exists(path), "view": None, "error": None}
+    if not out["exists"]:
+        return out
+    try:
+        if name == "junit":
+            import xml.etree.ElementTree as ET
+            root = ET.parse(path).getroot()
+            out["view"] = [[ts.get("name"), [[tc.get("name"), sorted(c.tag for c in tc)] for tc in ts.iter("testcase")]]
+                           for ts in root.iter("testsuite")]
+        else:
+            from lemoncheesecake.reporting import load_report
+            out["view"] = R.nf_report(load_report(path))
+    except Exception as e:
+        out["error"] = "%s: %s" % (type(e).__name__, str(e)[:300])
+    return out
+
+
 def extract_graph(tasks):
     idx = {id(t): i for i, t in enumerate(tasks)}
     out = []
@@ -259,7 +357,8 @@ class _ConsoleSys:
 
 
 def run_project(project, strategy="off", gate_seed=0, interrupt_at=None, backend_fault=None, watchdog=30.0,
-                gate_watchdog=10.0, stall=8.0, builder=None, console=True):
+                gate_watchdog=10.0, stall=8.0, builder=None, console=True, listeners=None, file_backends=None,
+                saving=None):
     """
     strategy      "off" | "fifo" | "lifo" | "random"   gate controller (obs.schedrec)
     interrupt_at  None | ["get", k]                    KeyboardInterrupt instead of the k-th blocking completed-queue get
@@ -269,6 +368,15 @@ def run_project(project, strategy="off", gate_seed=0, interrupt_at=None, backend
     watchdog      seconds for the WHOLE run; beyond it the case is aborted (state dumped, gates released) with outcome {"hang": true}
     builder       None (run/build.py: objects built directly) | callable (project, interp) -> (suites, fixture registry), e.g. the
                   declared route of props/_declrun.py (source + decorators + the real class loader)
+    listeners     None | list of shapes (LISTENER_SHAPES): further reporting sessions, all of ONE class (`SubsetSession`) whose
+                  `on_<event>` handlers are set per instance, attached after the recording backend in the given order;
+                  obs["listeners"] = [{"shape", "events", "got": [[event index, event name]]}], obs["fire_names"]
+    file_backends None | list of "json" / "xml" / "junit": the REAL file backends, attached after the recording backend (and the
+                  extra listeners) as `lcc run --reporting json junit` does, writing into the run's scratch report directory
+    saving        None | "at_each_test" | "at_each_failed_test" | "at_each_log" | "at_each_suite" | "at_end_of_tests": the
+                  `--save-report` expression, turned into a strategy by the real `make_report_saving_strategy`
+                  obs["saved"] = {backend: {"view": nf_report(load_report(file)) | None, "error": str | None, "exists": bool}}
+                  — the file as the real `load_report` reads it back, before the scratch directory is removed
     console       attach the REAL console backend too (as `lcc run` does by default), after the recording backend: its handlers run
                   on the same event-handling thread as the report writer's — sequential flavour with 1 worker thread, parallel
                   flavour otherwise; what it prints is discarded (module globals `sys` / `print` of console.py replaced for the run)
@@ -287,8 +395,9 @@ def run_project(project, strategy="off", gate_seed=0, interrupt_at=None, backend
     ctx.rec, ctx.namer, ctx.fault = rec, namer, backend_fault
     ctx.att_names, ctx.nfired, ctx.order_errors, ctx.pending_failure_at = [], 0, [], None
     ctx.fire_raw = []
+    ctx.fire_names = []
     interp = Interp(rec, namer)
-    side = {"graph": None, "tasks": None, "outcome": None, "session": None, "deaths": []}
+    side = {"graph": None, "tasks": None, "outcome": None, "session": None, "deaths": [], "listeners": []}
 
     def run_tasks_wrapper(tasks, context, nb_threads=1):
         with rec.cv:
@@ -344,9 +453,19 @@ def run_project(project, strategy="off", gate_seed=0, interrupt_at=None, backend
         em = EM.load()
         side["em"] = em
         backends = [RecBackend(ctx)]
+        for shape in listeners or []:
+            b = SubsetBackend(listener_events(shape))
+            side["listeners"].append((shape, b.session))
+            backends.append(b)
+        for name in file_backends or []:
+            backends.append(_file_backend(name))
         if console:
             backends.append(CON.ConsoleBackend())
-        session = Session.create(em, backends, tmp, None, nb_threads=n)
+        strategy = None
+        if saving:
+            from lemoncheesecake.reporting.savingstrategy import make_report_saving_strategy
+            strategy = make_report_saving_strategy(saving)
+        session = Session.create(em, backends, tmp, strategy, nb_threads=n)
         side["session"] = session
         try:
             ret = LR.run_suites(suites, registry, session, force_disabled=project["force_disabled"],
@@ -394,6 +513,9 @@ def run_project(project, strategy="off", gate_seed=0, interrupt_at=None, backend
             "thread_deaths": list(side["deaths"]), "released": [list(x) if isinstance(x, (list, tuple)) else x for x in rec.released],
             "gate_watchdog": rec.watchdog_fired, "order_errors": list(ctx.order_errors), "nb_events": ctx.nfired,
         })
+        if listeners:
+            obs["fire_names"] = list(ctx.fire_names)
+            obs["listeners"] = [{"shape": shape, "events": list(ls.names), "got": list(ls.got)} for shape, ls in side["listeners"]]
         session = side["session"]
         obs["report"] = None
         if session is not None:
@@ -402,6 +524,8 @@ def run_project(project, strategy="off", gate_seed=0, interrupt_at=None, backend
                 obs["report_view"] = R.nf_report(session.report)     # what every reader sees: rank-sorted REAL accessors
             except Exception as e:
                 obs["report_error"] = "%s: %s" % (type(e).__name__, e)
+        if file_backends:
+            obs["saved"] = {name: _read_saved(name, tmp) for name in file_backends}
         att = []
         adir = os.path.join(tmp, "attachments")
         if os.path.isdir(adir):
